@@ -33,24 +33,35 @@ def run(prop, tier, replay=None):
         # GEN: exhaustive short histories (every single operation after every single operation) + simulated long ones
         cfg1 = os.path.join(work, "GEN_short.cfg")
         with open(cfg1, "w") as f:
-            f.write("SPECIFICATION Spec\nCONSTANTS\n  MaxTests = 2\n  MaxOps = 1\nINVARIANTS Emit\nCHECK_DEADLOCK FALSE\n")
+            f.write("SPECIFICATION Spec\nCONSTANTS\n  MaxTests = 2\n  MaxOps = 1\n  Family = \"all\"\nINVARIANTS Emit\nCHECK_DEADLOCK FALSE\n")
         r1 = tlc("MC_ShellCarrier", cfg1, work, workers=min(NCPU, 8), timeout=3000, line_filter=lambda l: l.startswith('<<"REPLAY"') or l.startswith("Error"))
         tlc_must_pass(r1, "ShellCarrier GEN short")
         short = [json.loads(t) for t in sorted({f[0] for f in r1.printed("REPLAY")})]
         import random
         rnd = random.Random(s * 31 + 7)
-        nshort = 150 if tier == "quick" else len(short)
+        nshort = 150 if tier == "quick" else 4000
         short = short if len(short) <= nshort else rnd.sample(short, nshort)
         cfg2 = os.path.join(work, "GEN_long.cfg")
         with open(cfg2, "w") as f:
-            f.write("SPECIFICATION Spec\nCONSTANTS\n  MaxTests = 4\n  MaxOps = 2\nINVARIANTS Emit\nCHECK_DEADLOCK FALSE\n")
+            f.write("SPECIFICATION Spec\nCONSTANTS\n  MaxTests = 4\n  MaxOps = 2\n  Family = \"all\"\nINVARIANTS Emit\nCHECK_DEADLOCK FALSE\n")
         nlong = 120 if tier == "quick" else 2500
         r2 = tlc("MC_ShellCarrier", cfg2, work, workers=1, timeout=3000, simulate=f"num={nlong}", extra=["-depth", "60", "-seed", str(s + 1)],
                  line_filter=lambda l: l.startswith('<<"REPLAY"') or l.startswith("Error"))
         longs = [json.loads(t) for t in sorted({f[0] for f in r2.printed("REPLAY")})]
         if len(longs) < nlong // 2:
             raise ToolError(f"simulation produced only {len(longs)} histories")
-        vectors = short + longs
+        # interplay family: every history of 3 test cases x 1 operation over the operations whose restore order matters
+        cfg3 = os.path.join(work, "GEN_interplay.cfg")
+        with open(cfg3, "w") as f:
+            f.write("SPECIFICATION Spec\nCONSTANTS\n  MaxTests = 3\n  MaxOps = 1\n  Family = \"interplay\"\nINVARIANTS CarriesOver Emit\nCHECK_DEADLOCK FALSE\n")
+        r3 = tlc("MC_ShellCarrier", cfg3, work, workers=min(NCPU, 8), timeout=3000, line_filter=lambda l: l.startswith('<<"REPLAY"') or l.startswith("Error"))
+        tlc_must_pass(r3, "ShellCarrier GEN interplay")
+        inter = [json.loads(t) for t in sorted({f[0] for f in r3.printed("REPLAY")})]
+        inter = [v for v in inter if not any(t["detached"] for t in v["hist"][:2])]      # the first two must leave their state behind
+        ninter = 400 if tier == "quick" else len(inter)
+        inter = inter if len(inter) <= ninter else rnd.sample(inter, ninter)
+        cov["histories_interplay_family"] = len(inter)
+        vectors = short + longs + inter
         for i, v in enumerate(vectors):
             v["id"] = i + 1
         cov["histories_short_exhaustive_family"] = len(short)
@@ -58,7 +69,7 @@ def run(prop, tier, replay=None):
         log(f"GEN: {len(short)} two-step histories, {len(longs)} simulated histories of 4 test cases x <= 2 operations")
     vpath, rpath = os.path.join(work, "vectors.ndjson"), os.path.join(work, "records.ndjson")
     write_ndjson(vpath, vectors)
-    harness(["shell-replay", "--vectors", vpath, "--records", rpath], timeout=3000)
+    harness(["shell-replay", "--vectors", vpath, "--records", rpath], timeout=6000, env={"VERIF_THREADS": "8"})
     records = read_ndjson(rpath)
     results, printed = tlc_validate_sharded("ShellTrace", "ShellTrace.cfg", records, work, shards=min(NCPU, 6),
                                             slim=lambda r: {k: r[k] for k in ("ev", "id", "hist", "ref", "obs", "single")}, tags=("VERDICT", "TOOL"))
@@ -79,7 +90,7 @@ def run(prop, tier, replay=None):
             diffs = ["no-probe-output"]
         else:
             diffs = []
-            for n in ("v1", "v2"):
+            for n in sorted(ref["vars"]):
                 if o["vars"][n]["kind"] != ref["vars"][n]["kind"] or (ref["vars"][n]["kind"] != "unset" and (o["vars"][n]["ex"] != ref["vars"][n]["ex"] or o["vars"][n]["val"] != ref["vars"][n]["val"])):
                     diffs.append(f"variable({ref['vars'][n]['kind']},{ref['vars'][n]['val']},exported={ref['vars'][n]['ex']})")
             for f_, name in (("funcs", "f1"), ("aliases", "a1")):
